@@ -275,21 +275,21 @@ def run_shard(desc) -> Acc:
 
         rej_kinds = ["fatal", "invalid_index", "undefined"]
 
-        async def explore(ents, sg, prefix):
+        async def explore(ents, sg, prefix, depth=depth):
             for (op, g) in OPS:
                 seq_ok = prefix + [(op, g, "ok")]
                 wrote = await run(ents, sg, seq_ok)
                 if len(wrote) < len(seq_ok):
                     continue
                 if len(seq_ok) < depth:
-                    await explore(ents, sg, seq_ok)
+                    await explore(ents, sg, seq_ok, depth)
                 if wrote[-1]:
                     rk = rej_kinds[(len(prefix) + G.index(g) + len(ents)) % 3]
                     for ans in ("reject:" + rk, "timeout"):
                         seq2 = prefix + [(op, g, ans)]
                         w2 = await run(ents, sg, seq2)
                         if len(w2) == len(seq2) and len(seq2) < depth:
-                            await explore(ents, sg, seq2)
+                            await explore(ents, sg, seq2, depth)
 
         for ents in tabs:
             await run(ents, [], [])
@@ -297,9 +297,8 @@ def run_shard(desc) -> Acc:
             if n >= 1:
                 # the coordinator endpoint is a member of g1 (subscribed again at start-up)
                 await run(ents, [G[0]], [])
-                if depth >= 2:
-                    saved = depth
-                    await explore(ents, [G[0]], []) if n <= 2 else None
+                if depth >= 2 and n <= 2:
+                    await explore(ents, [G[0]], [], depth - 1)
 
     try:
         vloop.run(main)
